@@ -6,8 +6,10 @@ import (
 	"context"
 	"flag"
 	"fmt"
+	proto "github.com/kubewharf/kubebrain-client/api/v2rpc"
 	"github.com/tikv/client-go/v2/tikvrpc"
 	"io/ioutil"
+	"k8s.io/client-go/tools/leaderelection/resourcelock"
 	"net/http"
 	"os"
 	"path/filepath"
@@ -308,3 +310,101 @@ func ClientOf(ctx context.Context) int {
 	}
 	return -1
 }
+
+// ---------------------------------------------------------------------------------------------------------------
+// DetachableBackend
+
+// DetachableBackend forwards to a real backend until Detach is called. brain.New starts a background loop that never
+// ends and keeps its backend reachable for ever; a backend owns megabytes of buffers, so server objects of a case are
+// given this thin handle and the real backend is released when the case ends.
+type DetachableBackend struct {
+	p atomic.Value // *backendBox
+}
+
+type backendBox struct{ b backend.Backend }
+
+// NewDetachable wraps b
+func NewDetachable(b backend.Backend) *DetachableBackend {
+	d := &DetachableBackend{}
+	d.p.Store(&backendBox{b})
+	return d
+}
+
+// Detach releases the real backend; later calls are answered with an error
+func (d *DetachableBackend) Detach() { d.p.Store(&backendBox{deadBackend{}}) }
+
+func (d *DetachableBackend) cur() backend.Backend { return d.p.Load().(*backendBox).b }
+
+func (d *DetachableBackend) Create(ctx context.Context, r *proto.CreateRequest) (*proto.CreateResponse, error) {
+	return d.cur().Create(ctx, r)
+}
+func (d *DetachableBackend) Update(ctx context.Context, r *proto.UpdateRequest) (*proto.UpdateResponse, error) {
+	return d.cur().Update(ctx, r)
+}
+func (d *DetachableBackend) Delete(ctx context.Context, r *proto.DeleteRequest) (*proto.DeleteResponse, error) {
+	return d.cur().Delete(ctx, r)
+}
+func (d *DetachableBackend) Compact(ctx context.Context, rev uint64) (*proto.CompactResponse, error) {
+	return d.cur().Compact(ctx, rev)
+}
+func (d *DetachableBackend) Get(ctx context.Context, r *proto.GetRequest) (*proto.GetResponse, error) {
+	return d.cur().Get(ctx, r)
+}
+func (d *DetachableBackend) List(ctx context.Context, r *proto.RangeRequest) (*proto.RangeResponse, error) {
+	return d.cur().List(ctx, r)
+}
+func (d *DetachableBackend) Count(ctx context.Context, r *proto.CountRequest) (*proto.CountResponse, error) {
+	return d.cur().Count(ctx, r)
+}
+func (d *DetachableBackend) GetPartitions(ctx context.Context, r *proto.ListPartitionRequest) (*proto.ListPartitionResponse, error) {
+	return d.cur().GetPartitions(ctx, r)
+}
+func (d *DetachableBackend) ListByStream(ctx context.Context, s, e []byte, rev uint64) (<-chan *proto.StreamRangeResponse, error) {
+	return d.cur().ListByStream(ctx, s, e, rev)
+}
+func (d *DetachableBackend) Watch(ctx context.Context, key string, rev uint64) (<-chan []*proto.Event, error) {
+	return d.cur().Watch(ctx, key, rev)
+}
+func (d *DetachableBackend) GetResourceLock() resourcelock.Interface {
+	return d.cur().GetResourceLock()
+}
+func (d *DetachableBackend) GetCurrentRevision() uint64    { return d.cur().GetCurrentRevision() }
+func (d *DetachableBackend) SetCurrentRevision(rev uint64) { d.cur().SetCurrentRevision(rev) }
+
+var errNodeGone = fmt.Errorf("the case is over: this node has been shut down")
+
+type deadBackend struct{}
+
+func (deadBackend) Create(context.Context, *proto.CreateRequest) (*proto.CreateResponse, error) {
+	return nil, errNodeGone
+}
+func (deadBackend) Update(context.Context, *proto.UpdateRequest) (*proto.UpdateResponse, error) {
+	return nil, errNodeGone
+}
+func (deadBackend) Delete(context.Context, *proto.DeleteRequest) (*proto.DeleteResponse, error) {
+	return nil, errNodeGone
+}
+func (deadBackend) Compact(context.Context, uint64) (*proto.CompactResponse, error) {
+	return nil, errNodeGone
+}
+func (deadBackend) Get(context.Context, *proto.GetRequest) (*proto.GetResponse, error) {
+	return nil, errNodeGone
+}
+func (deadBackend) List(context.Context, *proto.RangeRequest) (*proto.RangeResponse, error) {
+	return nil, errNodeGone
+}
+func (deadBackend) Count(context.Context, *proto.CountRequest) (*proto.CountResponse, error) {
+	return nil, errNodeGone
+}
+func (deadBackend) GetPartitions(context.Context, *proto.ListPartitionRequest) (*proto.ListPartitionResponse, error) {
+	return nil, errNodeGone
+}
+func (deadBackend) ListByStream(context.Context, []byte, []byte, uint64) (<-chan *proto.StreamRangeResponse, error) {
+	return nil, errNodeGone
+}
+func (deadBackend) Watch(context.Context, string, uint64) (<-chan []*proto.Event, error) {
+	return nil, errNodeGone
+}
+func (deadBackend) GetResourceLock() resourcelock.Interface { return nil }
+func (deadBackend) GetCurrentRevision() uint64              { return 0 }
+func (deadBackend) SetCurrentRevision(uint64)               {}
